@@ -883,5 +883,20 @@ func init() {
 		e.c11List(s, q, "BulkInserter.UpdateOrDelete", "sqlxUpdateOrDeleteCalls", "delegated calls with arguments", func(fd *ast.FuncDecl) []string { return s.c11Calls(fd, "bi.executor.", "fn") })
 		e.c11List(s, f, "NewPeriodicalExecutor", "newShutdownCalls", "what the shutdown listener does", func(fd *ast.FuncDecl) []string { return s.c11Calls(fd, "proc.", "executor.") })
 		e.c11List(s, f, "PeriodicalExecutor.executeTasks", "executeTasksCalls", "calls with arguments", func(fd *ast.FuncDecl) []string { return s.c11Calls(fd, "pe.", "threading.") })
+		// parseInsertStmt: its decisions as Lean functions, its slice expressions as text
+		e.constDef(s, q, "valuesKeyword", "sqlxValuesKeyword")
+		e.c11CondFn(s, q, "parseInsertStmt", 0, "parseBadSqlFn", "(pos : Int)", nil)
+		e.c11CondFn(s, q, "parseInsertStmt", 1, "parseParenFoundFn", "(right : Int)", nil)
+		e.c11CondFn(s, q, "parseInsertStmt", 8, "parseNoVariablesFn", "(variables : Int)", nil)
+		e.c11CondFn(s, q, "parseInsertStmt", 9, "parseMismatchFn", "(columns variables : Int)", nil)
+		e.c11List(s, q, "parseInsertStmt", "parseConds", "conditions and returns", s.c11Conds)
+		e.c11List(s, q, "parseInsertStmt", "parseResultFields", "fields of the returned statement", s.c11LitFields)
+		e.c11List(s, q, "parseInsertStmt", "parseValueFormatAssigns", "assignments to `valueFormat`",
+			func(fd *ast.FuncDecl) []string { return s.c11Assigns(fd, "valueFormat") })
+		e.c11List(s, q, "parseInsertStmt", "parseSuffixAssigns", "assignments to `suffix`",
+			func(fd *ast.FuncDecl) []string { return s.c11Assigns(fd, "suffix") })
+		e.c11List(s, q, "parseInsertStmt", "parseIndexCalls", "the searches", func(fd *ast.FuncDecl) []string {
+			return s.c11Calls(fd, "strings.Index", "strings.LastIndexByte", "strings.ToLower", "strings.TrimSpace")
+		})
 	})
 }
